@@ -14,6 +14,7 @@ def shape_dname_target_resolved_separately : Bool := true
 def shape_exchange_checks_question : Bool := true
 def shape_level_is_zone_depth : Bool := true
 def shape_lookup_applies_rule : Bool := true
+def shape_lookup_sets_invalid_referrals_aside : Bool := true
 def shape_nsaddr_lookups_use_searchAddrs : Bool := true
 def shape_store_filters_before_entry : Bool := true
 def usable_local_probe : List Bool := [false, false, false, false, false]
